@@ -125,3 +125,14 @@ def replace_hour(m, z, hour):
     d = to_dt(m).astimezone(zone(z))
     w = dt.datetime(d.year, d.month, d.day, hour, 0, tzinfo=zone(z), fold=d.fold)
     return to_minutes(w.astimezone(UTC))
+
+
+def day_start(ordinal, z):
+    """UTC minute of the first whole wall-clock hour of the local date that exists (None for a skipped calendar day)"""
+    for h in range(24):
+        t = local_midnight_utc(ordinal, z, h)
+        if t is not None:
+            m = to_minutes(t)
+            if local_fields(m, z)[0] == ordinal:
+                return m
+    return None
